@@ -7,6 +7,7 @@
 
 pub mod scalars;
 pub mod events;
+pub mod locs;
 #[cfg(any(feature = "garde", feature = "validator"))]
 pub mod pathmap;
 pub mod reader;
